@@ -62,6 +62,13 @@ func (c *scriptConn) SetDeadline(t time.Time) error      { return nil }
 func (c *scriptConn) SetReadDeadline(t time.Time) error  { return nil }
 func (c *scriptConn) SetWriteDeadline(t time.Time) error { return nil }
 
+// the transport comes from the constructor and is handed the scripted connection instead of dialling
+func c11transport(c net.Conn) *NBTTransport {
+	n := NewNBTTransport()
+	n.conn = c
+	return n
+}
+
 // Send: every payload of length L is framed with the 17-bit length, or refused when it cannot be framed.
 func H_C11_send() {
 	L := vParam("L")
@@ -71,7 +78,7 @@ func H_C11_send() {
 		payload[L-1] = vU8("last")
 	}
 	c := &scriptConn{}
-	n := &NBTTransport{conn: c}
+	n := c11transport(c)
 	_, err := n.Send(payload)
 	if L > 0x1FFFF {
 		vCheck(err != nil, "send/refuse-oversize")
@@ -116,7 +123,7 @@ func H_C11_receive() {
 		cut = len(stream)
 	}
 	c := &scriptConn{in: stream[:cut], maxChk: vParam("chunk")}
-	n := &NBTTransport{conn: c}
+	n := c11transport(c)
 	got, err := n.Receive()
 	declared := int(stream[1]&1)<<16 | int(stream[2])<<8 | int(stream[3])
 	if err == nil {
@@ -150,7 +157,7 @@ func H_C11_two_frames() {
 	stream = append(stream, 0, 0, byte(b>>8), byte(b))
 	stream = append(stream, pb...)
 	c := &scriptConn{in: stream, maxChk: vParam("chunk")}
-	n := &NBTTransport{conn: c}
+	n := c11transport(c)
 	g1, e1 := n.Receive()
 	vCheck(e1 == nil, "two/first-ok")
 	vCheck(vBytesEq(g1, pa), "two/first-body")
@@ -174,7 +181,7 @@ func H_C11_two_sends() {
 		pb[0], pb[b-1] = vU8("b.first"), vU8("b.last")
 	}
 	c := &scriptConn{}
-	n := &NBTTransport{conn: c}
+	n := c11transport(c)
 	_, e1 := n.Send(pa)
 	_, e2 := n.Send(pb)
 	vCheck(e1 == nil && e2 == nil, "sends/accepted")
@@ -182,7 +189,7 @@ func H_C11_two_sends() {
 	if len(c.out) == 8+a+b {
 		h := c.out[4+a : 8+a]
 		vCheck(h[0] == 0 && h[1] == byte((b>>16)&1) && h[2] == byte(b>>8) && h[3] == byte(b), "sends/second-header-describes-the-second-message")
-		r := &NBTTransport{conn: &scriptConn{in: c.out}}
+		r := c11transport(&scriptConn{in: c.out})
 		g1, r1 := r.Receive()
 		g2, r2 := r.Receive()
 		vCheck(r1 == nil && r2 == nil, "sends/both-received")
@@ -216,7 +223,7 @@ func H_C11_concurrent_sends() {
 		pb[0], pb[b-1] = vU8("b.first"), vU8("b.last")
 	}
 	c := &yieldConn{}
-	n := &NBTTransport{conn: c}
+	n := c11transport(c)
 	var wg sync.WaitGroup
 	wg.Add(2)
 	go func() {
@@ -229,7 +236,7 @@ func H_C11_concurrent_sends() {
 	}()
 	wg.Wait()
 	vCheck(len(c.out) == 8+a+b, "concurrent-sends/two-frames-on-the-wire")
-	r := &NBTTransport{conn: &scriptConn{in: c.out}}
+	r := c11transport(&scriptConn{in: c.out})
 	g1, r1 := r.Receive()
 	g2, r2 := r.Receive()
 	vCheck(r1 == nil && r2 == nil, "concurrent-sends/both-received")
